@@ -205,7 +205,19 @@ def phase_emitters(run, repo):
 def reaction_emitters(run, repo):
     qual = 'pmutt.omkm.reaction.SurfaceReaction'
     ci = repo.cls(qual)
-    for adsorption, user_ea in ((False, False), (True, False), (False, True)):
+    def glued(sg, names):
+        """species names that follow a coefficient without a separating blank ('0.50O2(S)' names no species)"""
+        out = []
+        for k_, s_ in enumerate(sg.segs):
+            if s_.kind == 'field' and s_.value in names and k_ > 0:
+                prev = sg.segs[k_ - 1]
+                tail = prev.text[-1:] if prev.kind == 'lit' else ('0' if prev.cls == 'num' else '')
+                if tail and tail in '0123456789.':
+                    out.append(str(s_.value).strip(Z))
+        return out
+
+    for adsorption, user_ea, pcoef in ((False, False, C(2)), (True, False, C(2)), (False, True, C(2)),
+                                       (False, False, C(Fr(3, 2)))):
         I = Interp(repo)
         D = I.D
         fr = Frame(I, repo.module('pmutt'), {}, None, None)
@@ -222,11 +234,12 @@ def reaction_emitters(run, repo):
         # a surface step has two surface reactants: its pre-exponential factor then carries a power of the site
         # density and depends on the quantity/length units requested
         r0 = g if adsorption else a3
-        rxn = make_reaction(I, repo, ci, [r0, a], [C(1), C(1)], [b], [C(2)], id=rid, is_adsorption=adsorption,
+        rxn = make_reaction(I, repo, ci, [r0, a], [C(1), C(1)], [b], [pcoef], id=rid, is_adsorption=adsorption,
                             A=None, beta=D.sym('beta'), Ea=D.sym('Ea_user') if user_ea else None, direction=None,
                             sticking_coeff=D.sym('stick'), use_motz_wise=False)
         T, P = D.sym('T'), D.sym('P')
-        label = 'adsorption=%s user Ea=%s' % (adsorption, user_ea)
+        label = 'adsorption=%s user Ea=%s' % (adsorption, user_ea) + ('' if pcoef.eq(C(2)) else ' product coefficient 3/2')
+        spnames = [r0.attrs['name'], a.attrs['name'], b.attrs['name']]
         if user_ea:
             wantE = D.sym('Ea_user') * D.sym('U<kJ>') / D.sym('U<kcal>')
         elif adsorption:
@@ -254,6 +267,9 @@ def reaction_emitters(run, repo):
             run.check(texts == [r0.attrs['name'], a.attrs['name'], b.attrs['name'], rid], 'DATAFLOW.reaction',
                       'SurfaceReaction.to_cti', label + ' equation and id',
                       'equation/id fields are %s' % [str(t).strip(Z) for t in texts], owner.module, fn)
+            run.check(not glued(sg, spnames), 'DATAFLOW.reaction', 'SurfaceReaction.to_cti', label + ' equation terms',
+                      'in the equation %s the species %s follow their coefficient without a blank: the term names no '
+                      'species of the mechanism' % (show(sg, 120), glued(sg, spnames)), owner.module, fn)
         owner, fn = repo.find_method(ci, 'to_omkm_yaml')
         g.attrs['phase'] = 'gas'
         d = I.call_method(rxn, 'to_omkm_yaml', [], {'T': T, 'P': P, 'units': u})
@@ -276,6 +292,12 @@ def reaction_emitters(run, repo):
                   owner.module, fn)
         run.check(I.plain(d.d.get('id')) == rid, 'DATAFLOW.reaction', 'SurfaceReaction.to_omkm_yaml', label + ' id',
                   'id is %s' % show(d.d.get('id')), owner.module, fn)
+        eq_ = d.d.get('equation')
+        eqs = I.seg(eq_) if isinstance(eq_, (str, SegStr)) else None
+        run.check(eqs is not None and [f.value for f in eqs.fields() if f.cls != 'num'] == spnames and
+                  not glued(eqs, spnames), 'DATAFLOW.reaction', 'SurfaceReaction.to_omkm_yaml', label + ' equation',
+                  'the equation entry is %s: every species once, each separated from its coefficient'
+                  % show(eq_, 120), owner.module, fn)
         if adsorption:
             run.check(I.plain(d.d.get('sticking-species')) == g.attrs['name'], 'DATAFLOW.reaction',
                       'SurfaceReaction.to_omkm_yaml', label + ' sticking species',
